@@ -39,6 +39,9 @@ def _valid(m):
 
 def _mk(case):
     _FORCE_FORM[0] = case.get("form")
+    if case.get("share"):
+        # equal sub-recipes are ONE Python object in the built model (a sub-proposition the user made once and used in several places)
+        return B.build(case["recipe"], leaf_str=case.get("leaf_str", False), via=case.get("via", "ctor"), style=case.get("style", 0), memo={})
     return B.build(case["recipe"], leaf_str=case.get("leaf_str", False), via=case.get("via", "ctor"), style=case.get("style", 0))
 
 def _compounds(m):
